@@ -97,6 +97,16 @@ func GetEnv() Env {
 	return e
 }
 
+// Deep reports whether the thorough tier was requested on the command line
+// (checks whose sequential part is cheap run that part at full depth in the
+// quick tier too; their interleaving tiers are scaled by this instead).
+func (e Env) Deep() bool {
+	if v := os.Getenv("VERIF_REAL_TIER"); v != "" {
+		return v == "thorough"
+	}
+	return e.Tier == "thorough"
+}
+
 // Thorough reports whether the thorough tier was requested.
 func (e Env) Thorough() bool { return e.Tier == "thorough" }
 
